@@ -156,14 +156,16 @@ func c41SynSent(port int) int {
 		return -1
 	}
 	suffix := fmt.Sprintf("01007F:%04X", port) // 127.0.1.x little-endian: xx01007F
-	n := 0
+	// a /proc/net/tcp listing is not an atomic snapshot (a socket can be listed twice when the table changes between
+	// two reads): count distinct local endpoints, one per socket
+	seen := map[string]bool{}
 	for _, ln := range strings.Split(string(b), "\n") {
 		f := strings.Fields(ln)
 		if len(f) > 3 && f[3] == "02" && strings.HasSuffix(f[2], suffix) {
-			n++
+			seen[f[1]] = true
 		}
 	}
-	return n
+	return len(seen)
 }
 
 type c41Resolver struct {
@@ -942,7 +944,13 @@ func c41Multi(n, m int, beh string, opts int) *Case {
 			default:
 			}
 			if k := int64(c41SynSent(g.port)); k > maxSyn {
-				maxSyn, maxAt = k, time.Since(t0)
+				// confirm with a second listing: attempts in progress towards a hanging endpoint stay for a long time
+				if k2 := int64(c41SynSent(g.port)); k2 < k {
+					k = k2
+				}
+				if k > maxSyn {
+					maxSyn, maxAt = k, time.Since(t0)
+				}
 			}
 			if ln, _ := fasthttp.VerifTCPDialerSem(d); int64(ln) > maxSem {
 				maxSem = int64(ln)
